@@ -92,7 +92,15 @@ def _gen_v2tabs(run):
     _write("v2tabs", out, _stats(res))
 
 
+def _gen_v2neg(run):
+    res = vlib.run_tlc(run, "MC_V2Neg", dump=True)
+    rows = re.findall(r'row = "(neg|pos)\|([A-Za-z/]+)"', open(res["dump"]).read())
+    assert len(rows) == 46656, len(rows)
+    _write("v2neg", {"neg": sorted(k for s, k in rows if s == "neg"), "total": len(rows)}, _stats(res))
+
+
 BUILDERS = {
+    "v2neg": _gen_v2neg,
     "v2tabs": _gen_v2tabs,
     "tables": _gen_tables,
     "v3base": _gen_v3base,
@@ -102,7 +110,7 @@ BUILDERS = {
 }
 
 
-DEPS = {"v3enveff": ["v3envinner"]}
+DEPS = {"v3enveff": ["v3envinner"], "v2neg": ["v2tabs"]}
 
 
 def register(name, fn):
